@@ -225,6 +225,7 @@ static void explore_config(int mode, int buf, int win, int opt, int depth, int m
 	ntokens = n;
 	first_limit = core_first ? (mode ? 40 : (int) (sizeof(vi_core) / sizeof(vi_core[0]))) : 0;
 	nx_bound = depth;
+	snprintf(nx_cfg_args, sizeof(nx_cfg_args), "cfg=%d,%d,%d,%d,%d", mode, buf, win, opt, more);
 	nx_run(mode ? 4 : 3, mode ? argv_ex : argv_vi);
 	nv_stat("configurations", 1);
 	nx_report();
@@ -387,7 +388,7 @@ int main(int argc, char **argv)
 	nx_horizon = atoi(nv_arg(argc, argv, "horizon", "20"));
 	make_buffers();
 	if (replay_cfg) {
-		int m, d = 2, mo = 1;
+		int m, d = nx_replay_n >= 0 ? 8 : 2, mo = 1;
 		sscanf(replay_cfg, "%d,%d,%d,%d,%d", &m, &b, &w, &o, &mo);
 		explore_config(m, b, w, o, d, mo);
 		return nv_finish();
